@@ -1041,6 +1041,33 @@ class Interp:
             raise CutReached(frame)
         return NONE
 
+    def run_loop_body(self, live, header, contains, local_values):
+        """execute ONE iteration of the body of a `for` loop of the function (found by its
+        whitespace-normalised header and, optionally, a statement its body contains) from the given
+        locals: the per-iteration half of a loop proof whose other half is the loop's frame"""
+        fnode, mod = func_node(live)
+        found = []
+        for n in ast.walk(fnode):
+            if isinstance(n, ast.For) and stmt_matches(n, header):
+                if contains is None or any(stmt_matches(x, contains) for b in n.body for x in ast.walk(b) if isinstance(x, ast.stmt)):
+                    found.append(n)
+        if len(found) != 1:
+            raise Unsupported(f"loop {header!r} containing {contains!r}: {len(found)} matches in {fnode.name}")
+        frame = Frame(mod, fnode.name, None)
+        frame.locals.update(local_values)
+        key = f"{mod.__name__}:{live.__qualname__}"
+        self.functions_entered[key] = self.functions_entered.get(key, 0) + 1
+        self.depth += 1
+        try:
+            self.exec_block(found[0].body, frame)
+        except (ContinueSig, BreakSig):
+            pass
+        except ReturnSig as r:
+            return r.value, frame
+        finally:
+            self.depth -= 1
+        return NONE, frame
+
     def call_closure(self, f, args, kwargs):
         node = f.node
         if isinstance(node, ast.Lambda):
